@@ -239,6 +239,10 @@ def gen_atom(rng, opts):
         if c == 6:
             return ("cmp", "time", (("map", "plus1us"),), rng.choice(ops), ("T", rng.choice(GRID), rng.choice(OFFSETS)))
         return ("cmp", "tags", (rng.choice(TAG_KEYS), ("map", "raise")), "==", "a")
+    if k == "noop" and rng.random() < 0.25:
+        # exists() on a path of two keys (never true: tag and field values are not mappings)
+        attr = rng.choice(["tags", "fields"])
+        return ("exists", attr, (rng.choice(TAG_KEYS if attr == "tags" else FIELD_KEYS), rng.choice(["a", "x", "real"])))
     # noop - also on a query that already names a key: it still matches every point
     attr = rng.choice(["time", "measurement", "tags", "fields"])
     if attr in ("tags", "fields") and rng.random() < 0.4:
